@@ -117,12 +117,12 @@ func ucFirst(s string) string { return strings.ToUpper(s[:1]) + s[1:] }
 // the case: a history
 
 type Edit struct {
-	File    string   `json:"-"` // the resolver file the method was in when it was edited
+	File    string   `json:"-"`      // the resolver file the method was in when it was edited
 	Method  string   `json:"method"` // "queryResolver.Foo"
 	Body    string   `json:"body,omitempty"`
 	Doc     string   `json:"doc,omitempty"`
 	Results []string `json:"results,omitempty"` // names for (value, error)
-	Imports []string `json:"imports,omitempty"`  // "alias path" the body uses
+	Imports []string `json:"imports,omitempty"` // "alias path" the body uses
 }
 
 type Helper struct {
@@ -140,11 +140,11 @@ type Step struct {
 }
 
 type Case struct {
-	Layout string      `json:"layout"` // single-file follow-schema
+	Layout string `json:"layout"` // single-file follow-schema
 	// ResolverOpts: boolean options of the resolver section that are switched on (omit_template_comment)
-	ResolverOpts []string `json:"resolver_opts,omitempty"`
-	Schema SchemaModel `json:"schema"`
-	Steps  []Step      `json:"steps"`
+	ResolverOpts []string    `json:"resolver_opts,omitempty"`
+	Schema       SchemaModel `json:"schema"`
+	Steps        []Step      `json:"steps"`
 }
 
 var seq atomic.Int64
@@ -199,7 +199,7 @@ type method struct {
 }
 
 type parsed struct {
-	methods map[string]*method // "struct.Method"
+	methods map[string]*method  // "struct.Method"
 	imports map[string][]string // file -> "alias path"
 	all     string              // all resolver files concatenated
 	files   map[string]string
